@@ -341,7 +341,10 @@ def c_option_filter(ex, st, callee, a):
 def c_unwrap_or_default(ex, st, callee, a):
     v = a[0]
     if v[2] == 'Some': return [(None, v[3][0])]
-    what = re.search(r'Option::<(?:\w+::)*(\w+)', callee).group(1)
+    if re.search(r'Option::<&(\'\w+ )?str>', callee) or 'Option::<std::string::String>' in callee: return [(None, StringVal(''))]
+    m_ = re.search(r'Option::<(?:\w+::)*(\w+)', callee)
+    if not m_: raise Unsupported('unwrap_or_default: ' + callee)
+    what = m_.group(1)
     if what in ('Footer', 'ImplicitAssertion', 'Payload'): return [(None, adt(what, None, StringVal('')))]
     if what == 'str' or '&str' in callee: return [(None, StringVal(''))]
     raise Unsupported('unwrap_or_default of ' + what)
